@@ -68,7 +68,9 @@ def standin(tier, seed):
     for t in range(n_tab):
         M, rows = table(g)
         mc, probes = build(M, rows, seed + t)
-        for s in range(0, 7):
+        # step numbers in arbitrary order on the SAME object (a second stage restarting at 0, a counter set far ahead,
+        # step generators left unconsumed): what is due depends on the current step number only
+        for s in [int(x) for x in g.permutation(8)] + [30, 2, 0, 31]:
             mc.step_count = s
             due = [r for r in rows if s % r["interval"] == 0]
             case = {"M": M, "rows": rows, "step": s}
